@@ -244,8 +244,8 @@ def run_dates(spec, rec):
         rec.sample({"date_case": mine[0], "cells": len(mine)})
 
 
-LITS = [" ", ", ", "/", "-", ":", ".", " 2 ", " - ", "  ", "_", "(", ") ", "[", "] ", " @ ", "'", "' ", " '"]
-QUOTED = ["at", "o'clock", "Week", "h", "it's", "T", " of ", "yyyy", "é", " ", "d-M"]
+LITS = [" ", ", ", "/", "-", ":", ".", " 2 ", " - ", "  ", "_", "(", ") ", "[", "] ", " @ ", "'", "' ", " '", "%", " % ", "%%", "{", "}", "\\", "#", "&", "~"]
+QUOTED = ["at", "o'clock", "Week", "h", "it's", "T", " of ", "yyyy", "é", " ", "d-M", "%d", "100%", "%Y-%m", "{0}", "\\n", "%%"]
 
 
 def rand_composite(rng):
